@@ -42,6 +42,24 @@ def authorized(cases):
     return out
 
 
+def authorized_seq(cases):
+    """several queries on ONE evaluation context (what an evaluation does)"""
+    import types
+    from dds._eval_ctx import EvalMainContext
+    from dds.structures import CanonicalPath
+    out = []
+    for c in cases:
+        ctx = EvalMainContext(types.ModuleType("m"), set(c["accepted"]), {}, OrderedDict())
+        res = []
+        for q in c["queries"]:
+            try:
+                res.append(bool(ctx.is_authorized_path(CanonicalPath(PurePosixPath("/".join(q))))))
+            except BaseException as e:
+                res.append(exc_name(e))
+        out.append(res)
+    return out
+
+
 def stages(cases):
     from dds._api import _parse_stages
     from dds.structures import ProcessingStage
@@ -98,7 +116,7 @@ def argctx(cases):
 
 def main():
     payload = json.load(sys.stdin)
-    fn = {"overlap": overlap, "authorized": authorized, "stages": stages, "argctx": argctx}[payload["kind"]]
+    fn = {"overlap": overlap, "authorized": authorized, "authorized_seq": authorized_seq, "stages": stages, "argctx": argctx}[payload["kind"]]
     print("@@RESULT@@" + json.dumps(fn(payload["cases"])))
 
 
